@@ -279,7 +279,7 @@ C20_GROUPS = [
     ("controller-lastSetPwm-read-by-rpm-monitor-without-lock",
      r"^internal/controller\.\(\*DefaultFanController\)\.getPwm\|internal/controller\.\(\*DefaultFanController\)\.setPwm$"),
     ("pid-loop-of-a-curve-shared-by-several-fans",
-     r"^internal/util\.\(\*PidLoop\)\.Loop\|internal/util\.\(\*PidLoop\)\.Loop$"),
+     r"^internal/util\.\(\*PidLoop\)\.Loop<internal/curves\.\(\*PidSpeedCurve\)\.Evaluate\|internal/util\.\(\*PidLoop\)\.Loop<internal/curves\.\(\*PidSpeedCurve\)\.Evaluate$"),
 ]
 
 
@@ -388,7 +388,6 @@ curves:
       rpmPath: {work}/filefan_rpm
     neverStop: false
     curve: mx
-    controlAlgorithm: direct
     pwmMap:
       0: 0
       100: 100
